@@ -38,23 +38,37 @@ def run_script(script, mode, params, seed, timeout=600):
     return r
 
 
-def find_replay(mod, obligation):
-    best = None
+def find_replays(mod, obligation):
+    """candidate concretisers, best first: the longest matching prefix of the property's own REPLAY table and of the table of
+    the module the obligation was shared from (ties: the source module first -- it knows best how to replay its obligation)"""
+    own_best = None
     for pref, script, mode, params in getattr(mod, "REPLAY", []):
-        if obligation.startswith(pref) and (best is None or len(pref) > len(best[0])):
-            best = (pref, script, mode, params)
+        if obligation.startswith(pref) and (own_best is None or len(pref) > len(own_best[0])):
+            own_best = (pref, script, mode, params)
     own = getattr(mod, "__name__", "").split(".")[-1]
-    if (best is None or not obligation.startswith(own)) and len(obligation) > 3 and obligation[:3] != own:
-        # an obligation shared from another property's module: that module knows best how to replay it
+    src_best = None
+    if len(obligation) > 3 and obligation[:3] != own:
         try:
             import importlib
             src = importlib.import_module("props." + obligation[:3])
             for pref, script, mode, params in getattr(src, "REPLAY", []):
-                if obligation.startswith(pref) and pref.startswith(obligation[:3]) and (best is None or len(pref) >= len(best[0])):
-                    best = (pref, script, mode, params)
+                if obligation.startswith(pref) and pref.startswith(obligation[:3]) and (src_best is None or len(pref) > len(src_best[0])):
+                    src_best = (pref, script, mode, params)
         except Exception:
             pass
-    return best
+    cands = [c for c in (own_best, src_best) if c is not None]
+    if own_best is not None and src_best is not None and len(src_best[0]) >= len(own_best[0]):
+        cands = [src_best, own_best]
+    out = []
+    for c in cands:
+        if not any(c[1:] == d[1:] for d in out):
+            out.append(c)
+    return out
+
+
+def find_replay(mod, obligation):
+    r = find_replays(mod, obligation)
+    return r[0] if r else None
 
 
 def make_replay(prop, clause, path, seed, mod, known=None, cached=None):
@@ -63,12 +77,17 @@ def make_replay(prop, clause, path, seed, mod, known=None, cached=None):
            "repo": os.environ.get("VERIF_REPO", "/repo"), "seed": seed, "reproduced": False}
     if known is not None:
         rec["known_finding"] = known["id"]
-    r = find_replay(mod, clause["obligation"])
-    if r is not None:
-        _, script, mode, params = r
-        t0 = time.time()
-        res = dict(cached) if cached else run_script(script, mode, params, seed)
-        res.setdefault("replay_s", round(time.time() - t0, 2))
+    cands = find_replays(mod, clause["obligation"])
+    if cands:
+        tried = []
+        for k, (_, script, mode, params) in enumerate(cands):
+            t0 = time.time()
+            res = dict(cached) if (cached and k == 0) else run_script(script, mode, params, seed)
+            res.setdefault("replay_s", round(time.time() - t0, 2))
+            tried.append("%s %s" % (script, mode))
+            if res.get("reproduced") or k == len(cands) - 1:
+                break
+        res["concretisers_tried"] = tried
         rec["replay"] = res
         rec["reproduced"] = bool(res.get("reproduced"))
     else:
